@@ -527,8 +527,16 @@ class Memory:
             eng.bounds[p] = (lo, hi)
             phis.append((p, va.lin, vb.lin))
             bits = None
-            if va.bits is not None and vb.bits is not None:
-                bits = tuple(x if x == y else None for x, y in zip(va.bits, vb.bits))
+            ba, bb = va.bits, vb.bits
+            # a non-negative constant has known bits too (`0` joined with `FLAG` keeps every bit but the flag's)
+            if ba is None and va.lin.is_const() and va.lin.c >= 0:
+                ba = tuple((va.lin.c >> i) & 1 for i in range(va.w))
+            if bb is None and vb.lin.is_const() and vb.lin.c >= 0:
+                bb = tuple((vb.lin.c >> i) & 1 for i in range(vb.w))
+            if ba is not None and bb is not None:
+                bits = tuple(x if x == y else None for x, y in zip(ba, bb))
+                if all(x is None for x in bits):
+                    bits = None
             return Int(Lin.sym(p), bits, va.w, va.signed, va.tags & vb.tags)
         if isinstance(va, Bool) and isinstance(vb, Bool):
             return Bool(("sym", "phi(%s)" % name))
